@@ -21,6 +21,62 @@ std::string firstRule(const LoggerPtr &l)
     return l->issueCount() ? std::string(levelName(l->issue(0)->level())) + ":rule" + std::to_string(int(l->issue(0)->referenceRule())) : std::string("none");
 }
 
+// ------------------------------------------------------------------ service history (the property holds for ANY parser/printer a user holds)
+// The read-back of a printed document is repeated with Parser objects that have a past, and the printing with a Printer
+// that has a past.  Histories are a deterministic function of the case index (never of the shard), so every report replays.
+//   fresh      a new strict parser (the base case)
+//   producer   the parser has already read this very document once
+//   after-1x   the parser read a CellML 1.1 document with connections/encapsulation in permissive mode, then was set back to strict
+//   after-bad  the parser read a text that is not XML and a CellML 2.0 document full of errors
+//   long-lived all of the above plus the documents of the neighbouring cases (what a parser reused across a whole run has seen)
+// --hist=0 switches the dimension off (used by the quick tier for its largest family only).
+bool histOn() { auto it = g_options.find("hist"); return it == g_options.end() || it->second != "0"; }
+std::vector<std::string> g_neighbourDocs; // set by the family runner: documents of the cases i-1, i-2
+const std::string &legacyDoc()
+{
+    static const std::string d = [] {
+        ms::Spec s;
+        ms::Comp a; a.name = "pa"; ms::Var x; x.name = "x"; x.units = "metre"; x.id = "i_lx"; a.vars = {x};
+        ms::Comp b = a; b.name = "pb"; b.parent = 0; b.vars[0].id = "i_ly";
+        s.comps = {a, b};
+        s.conns.push_back({0, 0, 1, 0, "i_lmap"});
+        s.cids[{0, 1}] = "i_lconn";
+        ms::computeInterfaces(s);
+        ms::Legacy l; l.spelling = 1; l.dropped = 1;
+        return ms::xml1x(s, l);
+    }();
+    return d;
+}
+const std::vector<std::string> &badDocs()
+{
+    static const std::vector<std::string> d = {
+        "<model xmlns=\"http://www.cellml.org/cellml/2.0#\" name=\"broken\"><component",
+        "<?xml version=\"1.0\"?><model xmlns=\"http://www.cellml.org/cellml/2.0#\" bogus=\"1\"><units/><component><variable/><reset order=\"x\"/></component>"
+        "<component name=\"c\"/><component name=\"c\"/><connection component_1=\"c\"><map_variables variable_1=\"q\"/></connection>"
+        "<connection/><encapsulation><component_ref component=\"nope\"><component_ref/></component_ref></encapsulation><import/><foreign/>text</model>"};
+    return d;
+}
+static const char *HISTORIES[] = {"producer", "after-1x", "after-bad", "long-lived"};
+ParserPtr parserWithHistory(Ctx &c, int h, const std::string &document)
+{
+    auto p = Parser::create(true);
+    auto feed = [&](const std::string &d, bool strict) { p->setStrict(strict); (void)p->parseModel(d); c.logger(p, "parser"); };
+    if (h == 0 || h == 3) feed(document, true);
+    if (h == 1 || h == 3) feed(legacyDoc(), false);
+    if (h == 2 || h == 3) for (auto &d : badDocs()) feed(d, true);
+    if (h == 3) for (auto &d : g_neighbourDocs) feed(d, true);
+    p->setStrict(true);
+    return p;
+}
+PrinterPtr printerWithHistory(Ctx &c)
+{ // a printer that has already printed another, feature-rich model
+    static const ModelPtr other = [] { auto p = Parser::create(true); return p->parseModel(ms::xml20(ms::familyM("m").at(14), 2)); }();
+    auto pr = Printer::create();
+    (void)pr->printModel(other);
+    c.logger(pr, "printer");
+    return pr;
+}
+
 // The round-trip oracle shared by both parts.  `m` is the original; `accepted`: the validator raised nothing on it.
 // prefix distinguishes the part ("spec" / "text"), tail is appended to every signature (the character class for part ii).
 struct RoundTrip
@@ -61,6 +117,30 @@ RoundTrip roundTrip(Ctx &c, const ModelPtr &m, bool accepted, const std::string 
     c.logger(parser3, "parser");
     if (rt.contentSame && (text2.empty() || canonModel(m3) != canonA))
         c.violation(prefix + ":fixpoint:second-print-differs" + tail, {{"case", what}, {"aspects", text2.empty() ? std::string("print-empty") : ms::diffAspects(m, m3)}, {"printed2", safe(text2, 1500)}});
+    if (!histOn() || !rt.contentSame) return rt;
+    // the same read-back by parsers with a past: same content, and still no issue on a validator-accepted model
+    for (int h = 0; h < 4; ++h) {
+        auto ph = parserWithHistory(c, h, text);
+        auto mh = ph->parseModel(text);
+        c.logger(ph, "parser");
+        c.count("readbacks_with_history");
+        if (canonModel(mh) != canonA)
+            c.violation(prefix + ":readback[" + HISTORIES[h] + "]:content-differs" + tail, {{"case", what}, {"aspects", ms::diffAspects(m, mh)}, {"original", safe(canonA, 1500)}, {"reparsed", safe(canonModel(mh), 1500)}, {"printed", safe(text, 1500)}, {"issues", issuesJson(ph)}});
+        else if (ph->issueCount() != parser->issueCount())
+            c.violation(prefix + ":readback[" + HISTORIES[h] + "]:issues-differ-from-fresh-parser" + tail, {{"case", what}, {"fresh", issuesJson(parser)}, {"withHistory", issuesJson(ph)}, {"printed", safe(text, 1500)}});
+    }
+    // a printer with a past prints a document with the same content
+    auto prh = printerWithHistory(c);
+    std::string texth = prh->printModel(m);
+    c.logger(prh, "printer");
+    c.count("prints_with_history");
+    if (texth != text) {
+        auto pf = Parser::create(true);
+        auto mp = pf->parseModel(texth);
+        c.logger(pf, "parser");
+        if (texth.empty() || canonModel(mp) != canonA)
+            c.violation(prefix + ":print[reused-printer]:content-differs" + tail, {{"case", what}, {"aspects", texth.empty() ? std::string("print-empty") : ms::diffAspects(m, mp)}, {"printed", safe(texth, 1500)}});
+    }
     return rt;
 }
 
@@ -98,7 +178,12 @@ vf::Family specFamily(const std::string &name, std::function<ms::SpecFamily()> m
 {
     auto cell = std::make_shared<std::optional<ms::SpecFamily>>();
     auto get = [cell, make]() -> const ms::SpecFamily & { if (!*cell) *cell = make(); return **cell; };
-    return {name, [get] { return get().count(); }, [get](uint64_t i, Ctx &c) { judgeSpec(get().at(i), c); },
+    return {name, [get] { return get().count(); },
+            [get](uint64_t i, Ctx &c) {
+                g_neighbourDocs.clear();
+                if (histOn()) for (uint64_t k = 1; k <= 2 && k <= i; ++k) g_neighbourDocs.push_back(ms::xml20(get().at(i - k)));
+                judgeSpec(get().at(i), c);
+            },
             [get](uint64_t i) { auto s = get().at(i); return json{{"spec", ms::toJson(s)}, {"xml20", ms::xml20(s)}}; }};
 }
 
@@ -227,6 +312,8 @@ void judgeText(Ctx &c, const std::vector<std::pair<size_t, size_t>> &edits)
     c.logger(validator, "validator");
     bool accepted = validator->issueCount() == 0;
     ++c.judged;
+    static const std::string baseDoc = [] { auto pr = Printer::create(); return pr->printModel(makeBase(true).m); }();
+    g_neighbourDocs = {baseDoc};
     auto rt = roundTrip(c, b.m, accepted, "c02:text", ":" + cls, what);
     c.outcome(std::string(accepted ? "accepted " : "refused ") + cls + (rt.printedEmpty ? " print-empty" : rt.contentSame ? " same" : " differs"));
 }
